@@ -1,34 +1,48 @@
-import PysnarkModel.Lemmas.BranchStruct
+import PysnarkModel.Lemmas.BranchBasic
+import PysnarkModel.Lemmas.FxpValues
 import PysnarkModel.Lemmas.Triple
 /-!
-# Block branching: values computed while the effective guard is true
+# Block branching: what the operators return, whatever the guard is and while it is true
 
-`Live s`: no guard or a guard whose value is 1, and error suppression off.  In that mode every gadget
-returns what Python computes on the plain values (or raises).  Generalises the `Plain` lemmas of
-`Lemmas/Values.lean` / `ValuesDispatch.lean` from "no guard" to "guard value 1".
+`Live r s`: no guard or a guard whose value is 1, error suppression off, resolution `r`.  In that
+mode every gadget returns what Python computes on the plain values (or raises).  Every operator of
+the statement language leaves the configuration part of the state alone (`Same`) whatever the guard
+is, and every `LinCombBool` it creates holds 0 or 1 (the constructor checks that without looking at
+the guard).  Values are read through `rep`: the number in units of `2^-r`.
 -/
 namespace Pysnark
 
-def Live (s : St) : Prop := s.isGuard = true ∧ s.ignoreErrors = false
+structure Live (r : Nat) (s : St) : Prop where
+  guard : s.isGuard = true
+  ign : s.ignoreErrors = false
+  res : s.resolution = r
 
 /-- a saved guard triple that is live -/
 def LiveT (og : GuardBak) : Prop :=
   (match og.guard with | none => true | some g => g.value == 1) = true ∧ og.ignoreErrors = false
 
-theorem Live.same {s s' : St} (h : Live s) (sm : Same s s') : Live s' := by
-  unfold Live St.isGuard at *
-  rw [sm.guard, sm.ign]; exact h
+theorem Live.same {r : Nat} {s s' : St} (h : Live r s) (sm : Same s s') : Live r s' := by
+  refine ⟨?_, sm.ign.trans h.ign, sm.res.trans h.res⟩
+  have := h.guard
+  unfold St.isGuard at *
+  rw [sm.guard]; exact this
 
-theorem Live.triple {s : St} (h : Live s) : LiveT ⟨s.guard, s.ignoreErrors, s.one⟩ := h
+theorem Live.triple {r : Nat} {s : St} (h : Live r s) : LiveT ⟨s.guard, s.ignoreErrors, s.one⟩ := ⟨h.guard, h.ign⟩
 
-theorem Live.of_restore {og : GuardBak} {s s' : St} {u : Unit} (hl : LiveT og)
-    (h : restoreGuard og s = .ok (u, s')) : Live s' := by
-  rw [restoreGuard_ok h]; exact hl
+theorem Live.of_restore {r : Nat} {og : GuardBak} {s s' : St} {u : Unit} (hl : LiveT og) (hr : s.resolution = r)
+    (h : restoreGuard og s = .ok (u, s')) : Live r s' := by
+  rw [restoreGuard_ok h]; exact ⟨hl.1, hl.2, hr⟩
 
-/-! ## `check_positive` and the comparisons under a true guard -/
-theorem checkPositive_val_live {s s' : St} {x r : LinComb} {bits : Option Nat} (hl : Live s)
+theorem restoreGuard_res {og : GuardBak} {s s' : St} {u : Unit} (h : restoreGuard og s = .ok (u, s')) :
+    s'.resolution = s.resolution := by
+  rw [restoreGuard_ok h]
+
+def BoolLC (c : LinComb) : Prop := c.value = 0 ∨ c.value = 1
+
+/-! ## `check_positive` and the comparisons -/
+theorem checkPositive_all {s s' : St} {x r : LinComb} {bits : Option Nat}
     (h : checkPositive x bits s = .ok (r, s')) :
-    Same s s' ∧ r.value = (if x.value ≥ 0 then 1 else 0) := by
+    Same s s' ∧ BoolLC r ∧ ∀ {q : Nat}, Live q s → r.value = (if x.value ≥ 0 then 1 else 0) := by
   unfold checkPositive at h
   rw [getSt_bind] at h
   obtain ⟨⟨retv, bitvs⟩, s1, h1, h⟩ := bind_ok.mp h
@@ -38,144 +52,358 @@ theorem checkPositive_val_live {s s' : St} {x r : LinComb} {bits : Option Nat} (
   obtain ⟨bs, s3, h3, h⟩ := bind_ok.mp h
   obtain ⟨u, s4, h4, h⟩ := bind_ok.mp h
   obtain ⟨rfl, rfl⟩ := pure_ok' h
-  obtain ⟨sm2, v2, -⟩ := privValBool_val h2
+  obtain ⟨sm2, v2, hb⟩ := privValBool_val h2
   obtain ⟨sm3, -, -⟩ := mapM'_privValBool_val _ h3
   have sm4 := addConstraint_same h4
+  refine ⟨(sm2.trans sm3).trans sm4, by unfold BoolLC; rw [v2]; exact hb, ?_⟩
+  intro q hl
   unfold checkPositiveHint at hhint
-  simp only [hl.1, hl.2, Bool.true_and, decide_eq_true_eq] at hhint
+  simp only [hl.guard, hl.ign, Bool.true_and, decide_eq_true_eq] at hhint
   split at hhint
   · simp only [Except.ok.injEq, Prod.mk.injEq] at hhint
     obtain ⟨hr, -⟩ := hhint
-    exact ⟨(sm2.trans sm3).trans sm4, by rw [v2, ← hr]⟩
+    rw [v2, ← hr]
   · simp at hhint
 
-theorem checkPositiveV_lc_live {s s' : St} {d : LinComb} {v : Val} (hl : Live s)
+theorem checkPositiveV_lc_all {s s' : St} {d : LinComb} {v : Val}
     (h : checkPositiveV (.lc d) s = .ok (v, s')) :
-    Same s s' ∧ ∃ r, v = .lcb r ∧ r.value = if d.value ≥ 0 then 1 else 0 := by
+    Same s s' ∧ ∃ r, v = .lcb r ∧ BoolLC r ∧ ∀ {q : Nat}, Live q s → r.value = if d.value ≥ 0 then 1 else 0 := by
   unfold checkPositiveV at h
   obtain ⟨r, s1, h1, h⟩ := bind_ok.mp h
   obtain ⟨rfl, rfl⟩ := pure_ok' h
-  obtain ⟨sm, vr⟩ := checkPositive_val_live hl h1
-  exact ⟨sm, r, rfl, vr⟩
+  obtain ⟨sm, hb, vr⟩ := checkPositive_all h1
+  exact ⟨sm, r, rfl, hb, vr⟩
+
+theorem boolLC_ite {p : Prop} [Decidable p] {r : LinComb} (h : r.value = if p then 1 else 0) : BoolLC r := by
+  unfold BoolLC; rw [h]; split <;> simp
 
 section
 variable {s s' : St} {a : LinComb} {o v : Val}
 
-theorem cmpLV_int_live {op : Cmp} (hl : Live s) (ho : IsIntV o) (h : cmpLV op a o s = .ok (v, s')) :
-    Same s s' ∧ ∃ r, v = .lcb r ∧ r.value = cmpSem op a.value (ival o) := by
+theorem cmpLV_int_all {op : Cmp} (ho : IsIntV o) (h : cmpLV op a o s = .ok (v, s')) :
+    Same s s' ∧ ∃ r, v = .lcb r ∧ BoolLC r ∧ ∀ {q : Nat}, Live q s → r.value = cmpSem op a.value (ival o) := by
   unfold cmpLV at h
   cases op <;> simp only at h
   · obtain ⟨d, s1, h1, h⟩ := bind_ok.mp h
     obtain ⟨rfl, d1, rfl, vd1⟩ := rsubLV_val ho h1
     obtain ⟨d', s2, h2, h⟩ := bind_ok.mp h
     obtain ⟨rfl, d2, rfl, vd2⟩ := subLV_val (o := .int 1) trivial h2
-    obtain ⟨sm, r, rfl, vr⟩ := checkPositiveV_lc_live hl h
-    refine ⟨sm, r, rfl, ?_⟩
-    rw [vr, vd2, vd1, show ival (Val.int 1) = 1 from rfl]; simp only [cmpSem]
+    obtain ⟨sm, r, rfl, hb, vr⟩ := checkPositiveV_lc_all h
+    refine ⟨sm, r, rfl, hb, fun hl => ?_⟩
+    rw [vr hl, vd2, vd1, show ival (Val.int 1) = 1 from rfl]; simp only [cmpSem]
     split <;> split <;> first | rfl | omega
   · obtain ⟨d, s1, h1, h⟩ := bind_ok.mp h
     obtain ⟨rfl, d1, rfl, vd1⟩ := rsubLV_val ho h1
-    obtain ⟨sm, r, rfl, vr⟩ := checkPositiveV_lc_live hl h
-    refine ⟨sm, r, rfl, ?_⟩
-    rw [vr, vd1]; simp only [cmpSem]
+    obtain ⟨sm, r, rfl, hb, vr⟩ := checkPositiveV_lc_all h
+    refine ⟨sm, r, rfl, hb, fun hl => ?_⟩
+    rw [vr hl, vd1]; simp only [cmpSem]
     split <;> split <;> first | rfl | omega
   · obtain ⟨d, s1, h1, h⟩ := bind_ok.mp h
     obtain ⟨rfl, d1, rfl, vd1⟩ := subLV_val ho h1
     obtain ⟨sm, r, rfl, vr⟩ := checkZeroV_lc_val h
-    refine ⟨sm, r, rfl, ?_⟩
+    refine ⟨sm, r, rfl, boolLC_ite vr, fun _ => ?_⟩
     rw [vr, vd1]; simp only [cmpSem]
     split <;> split <;> first | rfl | omega
   · obtain ⟨d, s1, h1, h⟩ := bind_ok.mp h
     obtain ⟨rfl, d1, rfl, vd1⟩ := subLV_val ho h1
     obtain ⟨sm, r, rfl, vr⟩ := checkNonzeroV_lc_val h
-    refine ⟨sm, r, rfl, ?_⟩
-    rw [vr, vd1]; simp only [cmpSem]
-    split <;> split <;> first | rfl | omega
+    refine ⟨sm, r, rfl, ?_, fun _ => ?_⟩
+    · unfold BoolLC; rw [vr]; split <;> simp
+    · rw [vr, vd1]; simp only [cmpSem]
+      split <;> split <;> first | rfl | omega
   · obtain ⟨d, s1, h1, h⟩ := bind_ok.mp h
     obtain ⟨rfl, d1, rfl, vd1⟩ := subLV_val ho h1
     obtain ⟨d', s2, h2, h⟩ := bind_ok.mp h
     obtain ⟨rfl, d2, rfl, vd2⟩ := subLV_val (o := .int 1) trivial h2
-    obtain ⟨sm, r, rfl, vr⟩ := checkPositiveV_lc_live hl h
-    refine ⟨sm, r, rfl, ?_⟩
-    rw [vr, vd2, vd1, show ival (Val.int 1) = 1 from rfl]; simp only [cmpSem]
+    obtain ⟨sm, r, rfl, hb, vr⟩ := checkPositiveV_lc_all h
+    refine ⟨sm, r, rfl, hb, fun hl => ?_⟩
+    rw [vr hl, vd2, vd1, show ival (Val.int 1) = 1 from rfl]; simp only [cmpSem]
     split <;> split <;> first | rfl | omega
   · obtain ⟨d, s1, h1, h⟩ := bind_ok.mp h
     obtain ⟨rfl, d1, rfl, vd1⟩ := subLV_val ho h1
-    obtain ⟨sm, r, rfl, vr⟩ := checkPositiveV_lc_live hl h
-    refine ⟨sm, r, rfl, ?_⟩
-    rw [vr, vd1]; simp only [cmpSem]
+    obtain ⟨sm, r, rfl, hb, vr⟩ := checkPositiveV_lc_all h
+    refine ⟨sm, r, rfl, hb, fun hl => ?_⟩
+    rw [vr hl, vd1]; simp only [cmpSem]
     split <;> split <;> first | rfl | omega
 
 /-- `cmpV` on two integer-kind operands: both plain is outside the model, otherwise Python's answer -/
-theorem cmpV_int_live {op : Cmp} {x y : Val} (hl : Live s) (hx : IsIntV x) (hy : IsIntV y)
+theorem cmpV_int_all {op : Cmp} {x y : Val} (hx : IsIntV x) (hy : IsIntV y)
     (h : cmpV op x y s = .ok (v, s')) :
-    Same s s' ∧ ∃ r, v = .lcb r ∧ r.value = cmpSem op (ival x) (ival y) := by
+    Same s s' ∧ ∃ r, v = .lcb r ∧ BoolLC r ∧ ∀ {q : Nat}, Live q s → r.value = cmpSem op (ival x) (ival y) := by
   unfold cmpV at h
   cases x <;> simp only [IsIntV] at hx <;> simp only at h
   · cases y <;> simp only [IsIntV] at hy <;> simp only at h
     · exact (raise_ok.mp h).elim
-    · obtain ⟨sm, r, rfl, vr⟩ := cmpLV_int_live hl (o := .int _) trivial h
-      exact ⟨sm, r, rfl, by rw [vr, cmpSem_mirror]; rfl⟩
-  · exact cmpLV_int_live hl hy h
+    · obtain ⟨sm, r, rfl, hb, vr⟩ := cmpLV_int_all (o := .int _) trivial h
+      exact ⟨sm, r, rfl, hb, fun hl => by rw [vr hl, cmpSem_mirror]; rfl⟩
+  · exact cmpLV_int_all hy h
 end
+
+/-- two `LinComb`s compared through the gadgets (`LinCombFxp.__lt__` … after `_ensurefxp`) -/
+theorem cmpLL_all {s s' : St} {op : Cmp} {x y r : LinComb} (h : cmpLL op x y s = .ok (r, s')) :
+    Same s s' ∧ BoolLC r ∧ ∀ {q : Nat}, Live q s → r.value = cmpSem op x.value y.value := by
+  cases op <;> simp only [cmpLL, cmpSem, ltLL, leLL, gtLL, geLL, eqLL, neLL] at h ⊢
+  · obtain ⟨sm, hb, vr⟩ := checkPositive_all h
+    refine ⟨sm, hb, fun hl => ?_⟩
+    rw [vr hl]; simp only [subI_value, sub_value]
+    split <;> split <;> first | rfl | omega
+  · obtain ⟨sm, hb, vr⟩ := checkPositive_all h
+    refine ⟨sm, hb, fun hl => ?_⟩
+    rw [vr hl]; simp only [sub_value]
+    split <;> split <;> first | rfl | omega
+  · obtain ⟨sm, vr⟩ := checkZero_val h
+    refine ⟨sm, boolLC_ite vr, fun _ => ?_⟩
+    rw [vr]; simp only [sub_value]
+    split <;> split <;> first | rfl | omega
+  · obtain ⟨sm, vr⟩ := checkNonzero_val h
+    refine ⟨sm, ?_, fun _ => ?_⟩
+    · unfold BoolLC; rw [vr]; split <;> simp
+    · rw [vr]; simp only [sub_value]
+      split <;> split <;> first | rfl | omega
+  · obtain ⟨sm, hb, vr⟩ := checkPositive_all h
+    refine ⟨sm, hb, fun hl => ?_⟩
+    rw [vr hl]; simp only [subI_value, sub_value]
+    split <;> split <;> first | rfl | omega
+  · obtain ⟨sm, hb, vr⟩ := checkPositive_all h
+    refine ⟨sm, hb, fun hl => ?_⟩
+    rw [vr hl]; simp only [sub_value]
+    split <;> split <;> first | rfl | omega
 
 theorem cmpSem_cmpB (op : Cmp) (x y : Int) : cmpSem op x y = if cmpB op x y then 1 else 0 := by
   cases op <;> simp only [cmpSem, cmpB, decide_eq_true_eq] <;> split <;> simp_all
 
-/-! ## `+`, `-`, `*` on integer-kind operands (no guard dependence) -/
+theorem cmpSem_scale (op : Cmp) (x y : Int) (k : Nat) : cmpSem op (x * 2 ^ k) (y * 2 ^ k) = cmpSem op x y := by
+  have hp : (0 : Int) < 2 ^ k := by positivity
+  cases op <;> simp only [cmpSem]
+  · simp only [Int.mul_lt_mul_right hp]
+  · simp only [Int.mul_le_mul_right hp]
+  · simp only [Int.mul_eq_mul_right_iff hp.ne']
+  · simp only [ne_eq, Int.mul_eq_mul_right_iff hp.ne']
+  · simp only [gt_iff_lt, Int.mul_lt_mul_right hp]
+  · simp only [ge_iff_le, Int.mul_le_mul_right hp]
+
+/-! ## scalars and their numbers -/
+
+/-- what a scalar of the statement language is at the level of the operator dispatch -/
+def Val.isS : Val → Prop
+  | .int _ | .lc _ | .lcb _ | .fxp _ => True
+  | _ => False
+
+theorem SVal.toVal_isS (o : SVal) : o.toVal.isS := by
+  cases o with
+  | pub c => trivial
+  | sc k l id => cases k <;> trivial
+
+theorem SVal.den_eq_rep (r : Nat) (o : SVal) : o.den r = rep r o.toVal := by
+  cases o with
+  | pub c => rfl
+  | sc k l id => cases k <;> rfl
+
+theorem isS_of_IsIntV {v : Val} (h : IsIntV v) : v.isS := by
+  cases v <;> simp only [IsIntV] at h <;> trivial
+
+theorem rep_of_IsIntV {v : Val} (h : IsIntV v) (r : Nat) : rep r v = ival v * 2 ^ r := by
+  cases v <;> simp only [IsIntV] at h <;> rfl
+
 section
 variable {s s' : St} {a b r : Val}
 
-theorem addV_int_val (ha : IsIntV a) (hb : IsIntV b) (h : addV a b s = .ok (r, s')) :
-    s' = s ∧ IsIntV r ∧ ival r = ival a + ival b := by
-  unfold addV at h
-  cases a <;> simp only [IsIntV] at ha <;> cases b <;> simp only [IsIntV] at hb <;> simp only at h
-  · obtain ⟨rfl, rfl⟩ := pure_ok' h; exact ⟨rfl, trivial, rfl⟩
-  · obtain ⟨rfl, z, rfl, vz⟩ := addLV_int_val (o := .int _) trivial h
-    exact ⟨rfl, trivial, by simp only [ival, vz]; ring⟩
-  · obtain ⟨rfl, z, rfl, vz⟩ := addLV_int_val (o := .int _) trivial h
-    exact ⟨rfl, trivial, by simp only [ival, vz]⟩
-  · obtain ⟨rfl, z, rfl, vz⟩ := addLV_int_val (o := .lc _) trivial h
-    exact ⟨rfl, trivial, by simp only [ival, vz]⟩
+theorem negV_rep (ha : a.isS) (h : negV a s = .ok (r, s')) :
+    s' = s ∧ r.isS ∧ (∀ l, r ≠ .lcb l) ∧ ∀ q, rep q r = -rep q a := by
+  cases a <;> simp only [Val.isS] at ha <;> simp only [negV] at h <;>
+    (obtain ⟨rfl, rfl⟩ := pure_ok' h
+     refine ⟨rfl, trivial, (fun l hl => by cases hl), fun q => ?_⟩
+     simp only [rep, neg_value]
+     try ring)
 
-theorem negV_int_val (ha : IsIntV a) (h : negV a s = .ok (r, s')) :
-    s' = s ∧ IsIntV r ∧ ival r = - ival a := by
-  unfold negV at h
-  cases a <;> simp only [IsIntV] at ha <;> simp only at h
-  all_goals (obtain ⟨rfl, rfl⟩ := pure_ok' h; exact ⟨rfl, trivial, rfl⟩)
+theorem addV_rep (ha : a.isS) (hb : b.isS) (h : addV a b s = .ok (r, s')) :
+    s' = s ∧ r.isS ∧ (∀ l, r ≠ .lcb l) ∧ rep s.resolution r = rep s.resolution a + rep s.resolution b := by
+  cases a <;> simp only [Val.isS] at ha <;> cases b <;> simp only [Val.isS] at hb <;>
+    simp only [addV, addLV, addXV] at h <;> (try rw [getRes_bind] at h) <;>
+    (obtain ⟨rfl, rfl⟩ := pure_ok' h
+     refine ⟨rfl, trivial, (fun l hl => by cases hl), ?_⟩
+     simp only [rep, add_value, addI_value, mulI_value]
+     try ring)
 
-theorem subV_int_val (ha : IsIntV a) (hb : IsIntV b) (h : subV a b s = .ok (r, s')) :
-    s' = s ∧ IsIntV r ∧ ival r = ival a - ival b := by
-  unfold subV at h
-  cases a <;> simp only [IsIntV] at ha <;> cases b <;> simp only [IsIntV] at hb <;> simp only at h
-  · obtain ⟨rfl, rfl⟩ := pure_ok' h; exact ⟨rfl, trivial, rfl⟩
+theorem subV_rep (ha : a.isS) (hb : b.isS) (h : subV a b s = .ok (r, s')) :
+    s' = s ∧ r.isS ∧ (∀ l, r ≠ .lcb l) ∧ rep s.resolution r = rep s.resolution a - rep s.resolution b := by
+  by_cases hint : (∃ c d, a = .int c ∧ b = .int d)
+  · obtain ⟨c, d, rfl, rfl⟩ := hint
+    simp only [subV] at h
+    obtain ⟨rfl, rfl⟩ := pure_ok' h
+    refine ⟨rfl, trivial, (fun l hl => by cases hl), ?_⟩
+    simp only [rep]; ring
+  · have h' : (do let nb ← negV b; addV a nb : M Val) s = .ok (r, s') := by
+      unfold subV at h
+      split at h
+      · exact (hint ⟨_, _, rfl, rfl⟩).elim
+      · exact h
+    obtain ⟨nb, s1, h1, h2⟩ := bind_ok.mp h'
+    obtain ⟨rfl, hnb, -, vnb⟩ := negV_rep hb h1
+    obtain ⟨rfl, hr, hk, vr⟩ := addV_rep ha hnb h2
+    exact ⟨rfl, hr, hk, by rw [vr, vnb]; ring⟩
+
+/-- `LinCombBool.__mul__` / `LinComb.__mul__`: the number of the product, whatever the kind of the
+other factor -/
+theorem mulLV_rep {x : LinComb} (hb : b.isS) (h : mulLV x b s = .ok (r, s')) :
+    Same s s' ∧ r.isS ∧ (∀ l, r ≠ .lcb l) ∧ ∀ q, rep q r = x.value * rep q b := by
+  cases b <;> simp only [Val.isS] at hb <;> simp only [mulLV] at h
+  · obtain ⟨rfl, rfl⟩ := pure_ok' h
+    exact ⟨Same.refl _, trivial, (fun l hl => by cases hl), fun q => by simp only [rep, mulI_value]; ring⟩
   all_goals
-    obtain ⟨nb, s1, h1, h2⟩ := bind_ok.mp h
-    obtain ⟨rfl, hnb, vnb⟩ := negV_int_val (by trivial) h1
-    obtain ⟨rfl, hr, vr⟩ := addV_int_val (by trivial) hnb h2
-    exact ⟨rfl, hr, by rw [vr, vnb]; simp only [ival]; ring⟩
+    obtain ⟨z, s1, h1, h⟩ := bind_ok.mp h
+    obtain ⟨rfl, rfl⟩ := pure_ok' h
+    obtain ⟨sm, vz⟩ := mulLL_val h1
+    exact ⟨sm, trivial, (fun l hl => by cases hl), fun q => by simp only [rep, vz]; ring⟩
 
-theorem mulV_int_val (ha : IsIntV a) (hb : IsIntV b) (h : mulV a b s = .ok (r, s')) :
-    Same s s' ∧ IsIntV r ∧ ival r = ival a * ival b := by
-  unfold mulV at h
-  cases a <;> simp only [IsIntV] at ha <;> cases b <;> simp only [IsIntV] at hb <;> simp only at h
-  · obtain ⟨rfl, rfl⟩ := pure_ok' h; exact ⟨Same.refl _, trivial, rfl⟩
-  · obtain ⟨sm, z, rfl, vz⟩ := mulLV_int_val (o := .int _) trivial h
-    exact ⟨sm, trivial, by simp only [ival, vz]; ring⟩
-  · obtain ⟨sm, z, rfl, vz⟩ := mulLV_int_val (o := .int _) trivial h
-    exact ⟨sm, trivial, by simp only [ival, vz]⟩
-  · obtain ⟨sm, z, rfl, vz⟩ := mulLV_int_val (o := .lc _) trivial h
-    exact ⟨sm, trivial, by simp only [ival, vz]⟩
+theorem mulXV_rep {x : LinComb} (hb : b.isS) (hk : ∀ y, b ≠ .fxp y) (h : mulXV x b s = .ok (r, s')) :
+    Same s s' ∧ r.isS ∧ (∀ l, r ≠ .lcb l) ∧ ∀ q, rep q r * 2 ^ q = x.value * rep q b := by
+  cases b <;> simp only [Val.isS] at hb <;> simp only [mulXV] at h <;> rw [getRes_bind] at h
+  · obtain ⟨rfl, rfl⟩ := pure_ok' h
+    exact ⟨Same.refl _, trivial, (fun l hl => by cases hl), fun q => by simp only [rep, mulI_value]; ring⟩
+  · obtain ⟨z, s1, h1, h⟩ := bind_ok.mp h
+    obtain ⟨rfl, rfl⟩ := pure_ok' h
+    obtain ⟨sm, vz⟩ := mulLL_val h1
+    exact ⟨sm, trivial, (fun l hl => by cases hl), fun q => by simp only [rep, vz]; ring⟩
+  · obtain ⟨z, s1, h1, h⟩ := bind_ok.mp h
+    obtain ⟨rfl, rfl⟩ := pure_ok' h
+    obtain ⟨sm, vz⟩ := mulLL_val h1
+    exact ⟨sm, trivial, (fun l hl => by cases hl), fun q => by simp only [rep, vz]; ring⟩
+  · exact (hk _ rfl).elim
+
+theorem mulV_rep (ha : a.isS) (hb : b.isS) (hok : mulOK a b = true) (h : mulV a b s = .ok (r, s')) :
+    Same s s' ∧ r.isS ∧ (∀ l, r ≠ .lcb l) ∧ ∀ q, rep q r * 2 ^ q = rep q a * rep q b := by
+  cases a <;> simp only [Val.isS] at ha <;> simp only [mulV] at h
+  · -- plain int on the left
+    cases b <;> simp only [Val.isS] at hb <;> simp only at h
+    · obtain ⟨rfl, rfl⟩ := pure_ok' h
+      exact ⟨Same.refl _, trivial, (fun l hl => by cases hl), fun q => by simp only [rep]; ring⟩
+    · obtain ⟨sm, hr, hk, vr⟩ := mulLV_rep (b := .int _) trivial h
+      exact ⟨sm, hr, hk, fun q => by rw [vr q]; simp only [rep]; ring⟩
+    · obtain ⟨sm, hr, hk, vr⟩ := mulLV_rep (b := .int _) trivial h
+      exact ⟨sm, hr, hk, fun q => by rw [vr q]; simp only [rep]; ring⟩
+    · obtain ⟨sm, hr, hk, vr⟩ := mulXV_rep (b := .int _) trivial (fun y hy => by cases hy) h
+      exact ⟨sm, hr, hk, fun q => by rw [vr q]; simp only [rep]; ring⟩
+  · obtain ⟨sm, hr, hk, vr⟩ := mulLV_rep hb h
+    exact ⟨sm, hr, hk, fun q => by rw [vr q]; simp only [rep]; ring⟩
+  · obtain ⟨sm, hr, hk, vr⟩ := mulLV_rep hb h
+    exact ⟨sm, hr, hk, fun q => by rw [vr q]; simp only [rep]; ring⟩
+  · have hk : ∀ y, b ≠ .fxp y := by
+      intro y hy; subst hy; simp [mulOK] at hok
+    obtain ⟨sm, hr, hk', vr⟩ := mulXV_rep hb hk h
+    exact ⟨sm, hr, hk', fun q => by rw [vr q]; simp only [rep]⟩
 end
 
-/-! ## `add_guard` on a boolean condition under a true guard -/
-theorem addGuard_live {c : LinComb} {s s1 : St} {og : GuardBak} (hl : Live s)
-    (h : addGuard (.lcb c) s = .ok (og, s1)) :
-    og = ⟨s.guard, s.ignoreErrors, s.one⟩ ∧ (c.value = 1 → Live s1) := by
-  have hb := addGuard_bak h
-  simp only [St.triple, Triple.mk.injEq] at hb
-  refine ⟨by cases og; simp only [GuardBak.mk.injEq]; exact hb, ?_⟩
-  intro hc
+/-- the comparisons the statement language admits: Python's answer on the numbers -/
+theorem cmpV_rep {s s' : St} {op : Cmp} {a b v : Val} (hok : cmpOK a b = true) (h : cmpV op a b s = .ok (v, s')) :
+    Same s s' ∧ ∃ l, v = .lcb l ∧ BoolLC l ∧
+      ∀ {q : Nat}, Live q s → l.value = cmpSem op (rep q a) (rep q b) := by
+  cases a <;> cases b <;> first | exact (Bool.false_ne_true hok).elim | skip
+  -- int / lc, lc / int, lc / lc
+  any_goals
+    (obtain ⟨sm, l, rfl, hb, vl⟩ := cmpV_int_all (by trivial) (by trivial) h
+     refine ⟨sm, l, rfl, hb, fun {q} hl => ?_⟩
+     rw [vl hl]
+     simp only [rep, ival]
+     rw [cmpSem_scale])
+  -- a plain int on the left of a fixed-point number: the reflected method
+  · simp only [cmpV] at h
+    obtain ⟨z, s1, h1, h⟩ := bind_ok.mp h
+    obtain ⟨l, s2, h2, h⟩ := bind_ok.mp h
+    obtain ⟨rfl, rfl⟩ := pure_ok' h
+    obtain ⟨rfl, vz⟩ := ensurefxp_val h1
+    obtain ⟨sm, hb, vl⟩ := cmpLL_all h2
+    refine ⟨sm, l, rfl, hb, fun {q} hl => ?_⟩
+    rw [vl hl, vz, cmpSem_mirror, hl.res]
+    simp only [rep]
+  -- a fixed-point number on the left
+  all_goals
+    (simp only [cmpV] at h
+     obtain ⟨z, s1, h1, h⟩ := bind_ok.mp h
+     obtain ⟨l, s2, h2, h⟩ := bind_ok.mp h
+     obtain ⟨rfl, rfl⟩ := pure_ok' h
+     obtain ⟨rfl, vz⟩ := ensurefxp_val h1
+     obtain ⟨sm, hb, vl⟩ := cmpLL_all h2
+     refine ⟨sm, l, rfl, hb, fun {q} hl => ?_⟩
+     rw [vl hl, vz, hl.res]
+     simp only [rep])
+
+/-- `a & b`, `a | b` on two booleans -/
+theorem bwV_bool {s s' : St} {op : BW} {x y : LinComb} {v : Val} (hop : op = .and ∨ op = .or)
+    (h : bwV op (.lcb x) (.lcb y) s = .ok (v, s')) :
+    Same s s' ∧ ∃ l, v = .lcb l ∧ BoolLC l ∧
+      l.value = (match op with | .and => x.value * y.value | _ => x.value + y.value - x.value * y.value) := by
+  rcases hop with rfl | rfl
+  · simp only [bwV, bwBV, ensurebool] at h
+    obtain ⟨y', s0, h0, h⟩ := bind_ok.mp h
+    obtain ⟨rfl, rfl⟩ := pure_ok' h0
+    obtain ⟨p, s1, h1, h⟩ := bind_ok.mp h
+    obtain ⟨l, s2, h2, h⟩ := bind_ok.mp h
+    obtain ⟨rfl, rfl⟩ := pure_ok' h
+    obtain ⟨sm1, vp⟩ := mulLL_val h1
+    obtain ⟨sm2, rfl, hb⟩ := mkBool_val h2
+    exact ⟨sm1.trans sm2, _, rfl, hb, vp⟩
+  · simp only [bwV, bwBV, ensurebool] at h
+    obtain ⟨y', s0, h0, h⟩ := bind_ok.mp h
+    obtain ⟨rfl, rfl⟩ := pure_ok' h0
+    obtain ⟨p, s1, h1, h⟩ := bind_ok.mp h
+    obtain ⟨l, s2, h2, h⟩ := bind_ok.mp h
+    obtain ⟨rfl, rfl⟩ := pure_ok' h
+    obtain ⟨sm1, vp⟩ := mulLL_val h1
+    obtain ⟨sm2, rfl, hb⟩ := mkBool_val h2
+    exact ⟨sm1.trans sm2, _, rfl, hb, by simp only [sub_value, add_value, vp]⟩
+
+/-- the scalar arm of `if_then_else`: `falsev + cond * (truev - falsev)` on the numbers; the result
+is never a `LinCombBool` -/
+theorem iteScalar_rep {s s' : St} {c : LinComb} {t f r : Val} (ht : t.isS) (hf : f.isS)
+    (h : iteScalar c t f s = .ok (r, s')) :
+    Same s s' ∧ r.isS ∧ (∀ l, r ≠ .lcb l) ∧
+      rep s.resolution r = rep s.resolution f + c.value * (rep s.resolution t - rep s.resolution f) := by
+  unfold iteScalar at h
+  obtain ⟨f', s1, h1, k1⟩ := bind_ok.mp h
+  clear h
+  have hf' : s1 = s ∧ f'.isS ∧ rep s.resolution f' = rep s.resolution f := by
+    unfold coerceF at h1
+    cases t <;> simp only at h1
+    all_goals first
+      | (obtain ⟨rfl, rfl⟩ := pure_ok' h1; exact ⟨rfl, hf, rfl⟩)
+      | (obtain ⟨y, s0, h0, h1⟩ := bind_ok.mp h1
+         obtain ⟨rfl, rfl⟩ := pure_ok' h1
+         obtain ⟨rfl, vy⟩ := ensurefxp_val h0
+         exact ⟨rfl, trivial, vy⟩)
+  obtain ⟨hs1, hfs, vf'⟩ := hf'
+  rw [hs1] at k1
+  clear h1 hs1
+  obtain ⟨d, s2, h2, k2⟩ := bind_ok.mp k1
+  clear k1
+  obtain ⟨hs2, hd, -, vd⟩ := subV_rep ht hfs h2
+  rw [hs2] at k2
+  clear h2 hs2
+  obtain ⟨p, s3, h3, k3⟩ := bind_ok.mp k2
+  clear k2
+  obtain ⟨sm, hp, -, vp⟩ := mulLV_rep hd h3
+  obtain ⟨hs3, hr, hk, vr⟩ := addV_rep hfs hp k3
+  rw [hs3]
+  refine ⟨sm, hr, hk, ?_⟩
+  rw [sm.res] at vr
+  rw [vr, vp, vd, vf']
+
+/-! ## `add_guard` -/
+theorem andLL_same {s s' : St} {a b : LinComb} {o : Option LinComb} (h : andLL a b s = .ok (o, s')) : Same s s' := by
+  unfold andLL at h
+  obtain ⟨ab, s1, h1, h⟩ := bind_ok.mp h
+  obtain ⟨bb, s2, h2, h⟩ := bind_ok.mp h
+  obtain ⟨res, s3, h3, h⟩ := bind_ok.mp h
+  obtain ⟨rfl, rfl⟩ := pure_ok' h
+  obtain ⟨sm1, -, -⟩ := toBits_val h1
+  obtain ⟨sm2, -, -⟩ := toBits_val h2
+  obtain ⟨sm3, -⟩ := mapM'_val (fun xy : LinComb × LinComb => mulBB xy.1 xy.2) (fun xy => xy.1.value * xy.2.value)
+    (fun _ => True) (fun _ _ _ _ => trivial) (fun xy s s' r _ h => mulBB_val h) _ trivial h3
+  exact (sm1.trans sm2).trans sm3
+
+/-- `add_guard` on a boolean condition changes the guard triple and nothing else of the configuration -/
+theorem addGuard_res {c : LinComb} {s s1 : St} {og : GuardBak} (h : addGuard (.lcb c) s = .ok (og, s1)) :
+    s1.resolution = s.resolution := by
   unfold addGuard unwrapBoolCond addGuardCore at h
   simp only at h
   split at h
@@ -184,21 +412,59 @@ theorem addGuard_live {c : LinComb} {s s1 : St} {og : GuardBak} (hl : Live s)
     | none =>
       simp only [hg, Except.ok.injEq, Prod.mk.injEq] at h
       obtain ⟨_, rfl⟩ := h
-      exact ⟨by simp [St.isGuard, hc], by simp [hl.2, hc]⟩
+      rfl
+    | some g =>
+      simp only [hg] at h
+      split at h
+      · cases h
+      · rename_i g' t hand
+        simp only [Except.ok.injEq, Prod.mk.injEq] at h
+        obtain ⟨_, rfl⟩ := h
+        unfold bwLV at hand
+        simp only at hand
+        obtain ⟨o, t1, hand1, hand2⟩ := bind_ok.mp hand
+        obtain ⟨_, rfl⟩ := pure_ok' hand2
+        exact (andLL_same hand1).res
+      · cases h
+
+theorem addGuard_live {r : Nat} {c : LinComb} {s s1 : St} {og : GuardBak} (hl : Live r s)
+    (h : addGuard (.lcb c) s = .ok (og, s1)) :
+    og = ⟨s.guard, s.ignoreErrors, s.one⟩ ∧ BoolLC c ∧ (c.value = 1 → Live r s1) := by
+  have hb := addGuard_bak h
+  simp only [St.triple, Triple.mk.injEq] at hb
+  have hres := addGuard_res h
+  refine ⟨by cases og; simp only [GuardBak.mk.injEq]; exact hb, ?_⟩
+  unfold addGuard unwrapBoolCond addGuardCore at h
+  simp only at h
+  split at h
+  · cases h
+  · rename_i hchk
+    have hcb : BoolLC c := by
+      simp only [hl.ign, Bool.not_false, Bool.true_and, Bool.and_eq_true, bne_iff_ne, ne_eq, not_and, Decidable.not_not] at hchk
+      unfold BoolLC
+      by_cases h0 : c.value = 0
+      · exact Or.inl h0
+      · exact Or.inr (hchk h0)
+    refine ⟨hcb, fun hc => ?_⟩
+    cases hg : s.guard with
+    | none =>
+      simp only [hg, Except.ok.injEq, Prod.mk.injEq] at h
+      obtain ⟨_, rfl⟩ := h
+      exact ⟨by simp [St.isGuard, hc], by simp [hl.ign, hc], hl.res⟩
     | some g =>
       simp only [hg] at h
       have hg1 : g.value = 1 := by
-        have := hl.1; unfold St.isGuard at this; rw [hg] at this; simpa using this
+        have := hl.guard; unfold St.isGuard at this; rw [hg] at this; simpa using this
       split at h
       · cases h
-      · rename_i g' s' hand
+      · rename_i g' t hand
         simp only [Except.ok.injEq, Prod.mk.injEq] at h
         obtain ⟨_, rfl⟩ := h
-        obtain ⟨sm, _, _, hv⟩ := bwLV_lc_val (op := .and) hl.2 hand
+        obtain ⟨sm, _, _, hv⟩ := bwLV_lc_val (op := .and) hl.ign hand
         have hv' : g'.value = 1 := by
           simp only [Val.num, bwSem, hg1, hc] at hv
           rw [hv]; rfl
-        exact ⟨by simp [St.isGuard, hv'], by simp [sm.ign, hl.2, hc]⟩
+        exact ⟨by simp [St.isGuard, hv'], by simp [sm.ign, hl.ign, hc], by rw [← hl.res]; exact hres⟩
       · cases h
 
 end Pysnark
